@@ -115,6 +115,52 @@ def respects_break(P, body, cs, visitor_sites):
 OVERLAYS = ('K2b',)
 
 
+def macro_get(P, b):
+    """Lookup of a macro-built collection (shared with C19: an optional None contributes no property)."""
+    bodies = [b] + P.closures_of(b)
+    for body in bodies:
+        bs = [c for c in body.calls(normal_only=True)
+              if re.search(r"binary_search|partition_point", c.callee.get("name") or "")]
+        if bs:
+            return False, ("lookup in a macro-built collection uses %s: the array is sorted by identifier at "
+                           "expansion time but #[emit::key] renames keys afterwards, so order-dependent "
+                           "search misses renamed keys" % bs[0].callee.get("name")), [], bs[0].loc
+    # must compare keys (Str eq) somewhere and return a value rooted in self
+    eqs = [c for body in bodies for c in body.calls(normal_only=True) if c.callee.get("name") in ("eq", "ne", "cmp")]
+    if not eqs:
+        return False, "no key comparison found in the lookup", [], b.span
+    # enumeration skips entries whose optional value is None; a boolean selector (find/position/any/filter) must
+    # skip them too, or a None entry renamed onto the same key hides a later Some entry from get() while
+    # for_each still shows it
+    for body in bodies:
+        for c in body.calls(normal_only=True):
+            if c.callee.get("name") not in ("find", "rfind", "position", "rposition", "any", "filter", "skip_while", "take_while"):
+                continue
+            clo = body.origin(c.args[-1])
+            if clo[0] != "agg" or clo[1].get("ak") != "closure":
+                return False, "selector %s is not given a closure literal (idiom not recognised)" % c.callee.get("name"), [], c.loc
+            cb = P.body(clo[1]["def"])
+            for rb in cb.return_blocks():
+                for path in cb.acyclic_paths(0, rb, limit=2000):
+                    ps = mir.PathSummary(cb, path)
+                    if mir.o_const_value(ps.ret()) is False:
+                        continue
+                    present = False
+                    for sbb, o, vals in ps.decisions():
+                        oo = o
+                        if oo[0] == "call" and oo[1].callee.get("name") == "is_some" and tuple(vals) not in (("0",), (0,)):
+                            present = True
+                        if oo[0] == "call" and oo[1].callee.get("name") == "is_none" and tuple(vals) in (("0",), (0,)):
+                            present = True
+                        if oo[0] == "discr" and tuple(vals) in (("1",), (1,)) and "Option" in str(cb._op_ty(cb.blocks[sbb]["term"]["discr"]) or "Option"):
+                            present = True
+                    if not present:
+                        return False, ("the lookup selects an entry by key alone (%s at %s): an #[emit::optional] entry that is None "
+                                       "and shares its final key with a later entry makes get() return nothing while enumeration "
+                                       "still yields the later value" % (c.callee.get("name"), c.loc)), [], c.loc
+    return True, "", [c.loc for c in eqs]
+
+
 def run(chk):
     P = mir.Program("K1")
     chk.use_program(P)
@@ -200,6 +246,106 @@ def run(chk):
             return False, "returns %s, not the lookup's result" % o_str(b.origin(0)), [], c.loc
         return True, "", [c.loc]
 
+
+    def _const_str(body, op):
+        o = body.origin(op, through_calls=("to_str", "get", "deref", "as_ref", "borrow", "as_str"))
+        v = mir.o_const_value(o)
+        return v if isinstance(v, str) else None
+
+    def _nonkey_decisions(body, ps, upto_bb):
+        """Decisions on a path that are about the collection's state: not key comparisons, not ?-propagation."""
+        out = []
+        for sbb, o, vals in ps.decisions():
+            if ps.pos[sbb] >= ps.pos.get(upto_bb, 10 ** 9):
+                break
+            oo = o
+            while oo[0] in ("discr", "unop", "field", "downcast", "cast"):
+                oo = oo[1] if oo[0] != "unop" else oo[2]
+            if oo[0] == "call":
+                nm = oo[1].callee.get("name")
+                if nm in ("eq", "ne", "branch", "cmp"):
+                    continue
+                out.append((nm, tuple(vals)))
+            elif oo[0] in ("param", "capture"):
+                out.append((o_str(o), tuple(vals)))
+        return out
+
+    def keyed_view_get(b):
+        fe = [x for x in P.find(trait=PROPS, method="for_each") if not x.is_closure and x.self_ty == b.self_ty]
+        if not fe:
+            raise mir.AnchorMissing("for_each of %s" % b.self_ty)
+        fe = fe[0]
+        # enumeration: constant key -> is every yield of it conditional on the collection's state?
+        yields = {}
+        always = None
+        inner_fe = [c for c in fe.calls(normal_only=True) if c.callee.get("trait") == PROPS and c.callee.get("name") == "for_each"]
+        for rb in fe.return_blocks():
+            for path in fe.acyclic_paths(0, rb, limit=3000):
+                ps = mir.PathSummary(fe, path)
+                # paths on which the visitor asked to stop are cut short: they say nothing about which keys exist
+                broke = False
+                for sbb, o, vals in ps.decisions():
+                    oo = o
+                    while oo[0] in ("discr",):
+                        oo = oo[1]
+                    if oo[0] == "call" and oo[1].callee.get("name") == "branch" and tuple(vals) in (("1",), (1,)):
+                        broke = True
+                if broke:
+                    continue
+                here = set()
+                for c in ps.calls(lambda c: c.callee.get("name") in ("call_mut", "call")):
+                    tup = ps.origin(c.args[1], at=ps.pos[c.bb])
+                    if tup[0] != "agg" or len(tup[2]) != 2:
+                        return False, "a visitor call in %s does not pass a (key, value) pair (idiom not recognised)" % fe.key, [], c.loc
+                    ko = tup[2][0]
+                    while ko[0] == "call" and ko[1].callee.get("name") in ("to_str", "by_ref", "new", "new_ref"):
+                        ko = ps.origin(ko[1].args[0], at=ps.pos[c.bb])
+                    kv = mir.o_const_value(ko)
+                    if not isinstance(kv, str):
+                        return False, ("%s yields a key that is not a constant (%s): lookup/enumeration agreement of this override "
+                                       "cannot be decided from the shape of the code" % (fe.key, o_str(ko))), [], c.loc
+                    yields.setdefault(kv, []).append(c.loc)
+                    here.add(kv)
+                always = here if always is None else (always & here)
+        if not yields:
+            return False, "enumeration of %s yields no constant keys (idiom not recognised)" % b.self_ty, [], fe.span
+        conditional = set(yields) - (always or set())   # keys that some complete enumeration does not yield
+        # lookup: which key constants are compared, and under which decisions a value is returned
+        inner_get = [c for c in b.calls(normal_only=True) if c.callee.get("trait") == PROPS and c.callee.get("name") in ("get", "pull")]
+        handled = set()
+        for rb in b.return_blocks():
+            for path in b.acyclic_paths(0, rb, limit=3000):
+                ps = mir.PathSummary(b, path)
+                r = ps.ret()
+                if r[0] == "agg" and r[1].get("variant") == "None":
+                    continue
+                if r[0] == "call" and r[1].callee.get("trait") == PROPS:
+                    continue  # falls back to the inner collection
+                # the key constant this path answered for: the last key comparison taken on its true edge
+                k = None
+                for sbb, o, vals in ps.decisions():
+                    oo = o
+                    if oo[0] == "call" and oo[1].callee.get("name") == "eq" and tuple(vals) not in (("0",), (0,)):
+                        for a in oo[1].args:
+                            v = _const_str(b, a)
+                            if v is not None:
+                                k = v
+                if k is None:
+                    return False, ("%s returns a value on a path that compared the key with no constant (idiom not recognised): "
+                                   "agreement with enumeration cannot be decided" % b.key), [], b.span
+                handled.add(k)
+                if k not in yields:
+                    return False, "lookup answers for the key `%s`, which enumeration of %s never yields" % (k, b.self_ty), [], b.span
+                if k in conditional and not _nonkey_decisions(b, ps, rb):
+                    return False, ("lookup returns `%s` unconditionally, but enumeration yields that key only under a condition on the "
+                                   "collection (%s): get() would return a value that for_each never shows" % (k, b.self_ty)), [], b.span
+        missing = set(yields) - handled
+        if missing and not inner_get:
+            return False, "enumeration yields %s but the lookup override never answers for them" % sorted(missing), [], b.span
+        if inner_fe and not inner_get:
+            return False, "enumeration continues into an inner collection but the lookup override never asks it", [], b.span
+        return True, "", [fe.span, b.span]
+
     for b in overrides["get"]:
         k = self_kind(b)
         key = "C02.R2.get:%s" % b.key
@@ -277,23 +423,13 @@ def run(chk):
                 return False, "And::get is not `left().get(k)` falling back to `right().get(k)` only when absent (returns %s)" % o_str(ret), [], b.span
             chk.ob(key, "And::get asks the left collection first and the right one only when the left has no value", f)
         elif k == "macro":
-            def f(b=b):
-                bodies = [b] + P.closures_of(b)
-                for body in bodies:
-                    bs = [c for c in body.calls(normal_only=True)
-                          if re.search(r"binary_search|partition_point", c.callee.get("name") or "")]
-                    if bs:
-                        return False, ("lookup in a macro-built collection uses %s: the array is sorted by identifier at "
-                                       "expansion time but #[emit::key] renames keys afterwards, so order-dependent "
-                                       "search misses renamed keys" % bs[0].callee.get("name")), [], bs[0].loc
-                # must compare keys (Str eq) somewhere and return a value rooted in self
-                eqs = [c for body in bodies for c in body.calls(normal_only=True) if c.callee.get("name") in ("eq", "ne", "cmp")]
-                if not eqs:
-                    return False, "no key comparison found in the lookup", [], b.span
-                return True, "", [c.loc for c in eqs]
+            f = lambda b=b: macro_get(P, b)
             chk.ob(key, "macro-built props: lookup makes no order assumption about the backing array (renamed keys)", f)
         else:
-            chk.extra.setdefault("unclassified_get_overrides", []).append(b.key)
+            # a lookup override the table above does not know: decide the part of coherence that is visible in the
+            # shape of the two methods (keyed views: constant keys), fail closed otherwise
+            chk.ob(key, "a keyed view's lookup returns only keys its enumeration yields, never under weaker conditions, and "
+                        "covers every enumerated key", lambda b=b: keyed_view_get(b), loc=b.span)
 
     for b in overrides["pull"]:
         key = "C02.R2.pull:%s" % b.key
